@@ -341,15 +341,22 @@ class TunnelHTTPConnection(ConnectionInterface):
                         or self._remote_origin.host.decode("ascii"),
                         "timeout": timeout,
                     }
+                    tls_stream = None
                     try:
                         with Trace("start_tls", logger, request, kwargs) as trace:
-                            stream = stream.start_tls(**kwargs)
+                            tls_stream = stream.start_tls(**kwargs)
+                            stream = tls_stream
                             trace.return_value = stream
                     except BaseException as exc:
                         # The proxy connection is still servicing the CONNECT
                         # request, so it needs closing if the tunnel isn't set up.
                         with ShieldCancellation():
                             self._connection.close()
+                            if tls_stream is not None:
+                                # The handshake had completed (the trace callback
+                                # failed, or was cancelled): the socket belongs
+                                # to the TLS stream now.
+                                tls_stream.close()
                         raise exc
 
                 # Determine if we should be using HTTP/1.1 or HTTP/2
